@@ -1,7 +1,7 @@
 CHECKS = [
     entry("C07", "collector",
           technique="property-based testing (rapid): generated buffer contents and ejection points on the real collector under virtual time; dominance/sufficiency/minimality oracle",
-          quick=dict(checks=400, budget_s=50),
+          quick=dict(checks=700, budget_s=70),
           thorough=dict(checks=8000, shards=16, budget_s=540),
           level_text="Generated buffer contents (sizes, ages, counts) and overage amounts, ejection at arbitrary lifecycle points; the ejected set is judged by a formula-agnostic dominance order plus sufficiency and minimality, and every ejected trace must be decided, forwarded/dropped and removed. Exploration.",
           level_note="Ejection is injected through a verif-tagged hook sending the same sendEarly message as checkAlloc; heap readings are not simulated. Virtual time via testing/synctest."),
